@@ -71,6 +71,12 @@ type EditEvent struct {
 	Step int64  `json:"step"`
 	File string `json:"file"`
 	To   int    `json:"to"`
+	// AtCall > 0: the edit is not timed by the step counter; it takes effect right after the AtCall-th access
+	// (Stat, Open, first Read, ReadFile) of file On (default: File) counted from the arming of the edits - that is,
+	// inside the window in which some task has that file's state in flight (between the Stat and the Open of one
+	// cache validation, between reading and installing). Step is then filled in by the fs when the edit fires.
+	AtCall int    `json:"at_call,omitempty"`
+	On     string `json:"on,omitempty"`
 }
 
 // FaultSpec makes the N-th (1-based) fs call of operation Op fail.
